@@ -12,7 +12,7 @@ prop(
     "and connection-level analogues, through recv_data / recv_stream_control + ArcRecvController: outcome must be FLOW_CONTROL_ERROR.",
     level_note="Trusted: the ledger (about 150 lines), the channel model of C01. Two of three histories use unequal uni / bidi-remote values; they end at the first finding.",
     design_ref="DESIGN.md §3 C11",
-    legs=[dict(name="flow", crate="l1rec", sub="c11", shards={Q: 16, T: 16}, budget={Q: 2500, T: 150000}, timeout=1800)],
+    legs=[dict(name="flow", crate="l1rec", sub="c11", shards={Q: 16, T: 16}, budget={Q: 2500, T: 100000}, timeout=1800)],
     floors={Q: {"ledger_stream_frames_checked": 300_000, "ledger_credit_probes": 1_000_000, "ledger_credit_probes_while_blocked": 100_000, "ledger_frames_exactly_at_stream_limit": 5_000,
                 "ledger_frames_exactly_at_conn_limit": 50_000, "ledger_max_data_delivered": 50_000, "ledger_max_stream_data_delivered": 5_000, "ledger_advertisements_checked": 100_000,
                 "ledger_retransmitted_bytes_free": 1_000_000, "hostile_stream_level_scenarios": 2000, "hostile_conn_level_scenarios": 400, "sets.stream_limit_kinds_checked": 3, "distinct": 10_000}},
